@@ -151,7 +151,7 @@ Definition node_terminal (nt : net) (p : list tev) (n : nat) (ks : counters) : l
   let inp := entered n p in
   let sup := supply nt n p in
   let handler := match feeder_of nt n with FFails _ => true | _ => false end in
-  (if ndisc (info nt n) && negb (match nrole (info nt n) with RRoot => true | _ => false end)
+  (if ndisc (info nt n)
    then chk (sub_multiset inp sup) (if handler then (2, 2) else (1, 2))
         ++ chk (length inp + k_disc ks =? length sup) (4, 2)          (* C04: every loss is counted *)
    else chk (same_multiset inp sup) (if handler then (2, 2) else (1, 2))   (* C01/C02/C04: offered exactly once, nothing lost *)
